@@ -6,9 +6,12 @@ EXTENDS PyDispatch, Json, CSV, IOUtils
 AllIntVals == 1..27
 EdgeIntVals == {1, 2, 4, 7, 8, 9, 10, 12, 13, 14, 15, 20, 21, 22, 23, 24, 25, 26, 27}
 FewIntVals == {2, 7, 9, 10, 14, 15, 21, 23, 25, 27}
-AllArgKinds == OtherArgs
+AllArgKinds == OtherArgs \ {"iM", "iT", "iE", "iW"}
+CoArgKinds == {"float", "bool", "str", "none", "iA", "iM", "iT", "iE", "iW"}
+CatsCo == {"cM", "vM", "pM", "cT", "cE", "cW", "i32", "f64", "str"}
+CatsCo2 == {"cM", "cT", "pM", "i32", "str"}
 FewArgKinds == {"float", "bool", "str", "bytes", "none", "iA", "iB", "kA", "iC"}
-Cats1 == CatSet
+Cats1 == CatSet \ CoCats
 Cats2 == {"u8", "i32", "u32", "i64", "f64", "bool", "str", "rA", "cA", "cB"}
 Cats3 == {"u8", "i32", "f64", "bool", "str", "cA", "rB"}
 Cats4 == {"i8", "i32", "u64", "f64", "bool", "str", "rA", "cA", "rB"}
